@@ -282,7 +282,10 @@ def close(R, RID='C15.close'):
                 and U(n.ast.value) == 'self.websocket.sent_close_time':
             sent = n.ast.targets[0].id
     need(sent is not None, '_check_close_timeout does not read websocket.sent_close_time')
-    want = ({tm: 1, sent: -1, to: -1}, '>=')
+    SA = 'self.websocket.sent_close_time'
+    wants = [({tm: 1, sent: -1, to: -1}, '>='), ({tm: 1, SA: -1, to: -1}, '>=')]
+    want = wants[0]
+    nonnull = {('%s is None' % sent, False), ('%s is None' % SA, False)}
     raises = [n for n in g.live_nodes() if n.kind == 'stmt' and isinstance(n.ast, ast.Raise)]
     need(raises, '_check_close_timeout never raises')
     for r in raises:
@@ -290,17 +293,18 @@ def close(R, RID='C15.close'):
         bad = []
         for l in path_conditions(R, g, rd, g.entry, r):
             lins = _lits_lin(l, alias)
-            extra = unmatched(path_atom_sets(l), lambda f: (to, True) in f or ('%s is None' % sent, False) in f or any(
-                lin_cmp(t, p_, alias) == want for (t, p_) in f))
-            if (to, True) not in l or ('%s is None' % sent, False) not in l or want not in lins or extra:
+            extra = unmatched(path_atom_sets(l), lambda f: (to, True) in f or bool(nonnull & f) or any(
+                lin_cmp(t, p_, alias) in wants for (t, p_) in f))
+            if (to, True) not in l or not (nonnull & l) or not any(w in lins for w in wants) or extra:
                 bad.append(sorted(l))
         R.ob(RID, 'forced disconnect exactly under the close-timeout condition', not bad and toks == {'session._ForceDisconnect'},
              'close timeout raises %s under %s' % (sorted(toks), bad[:1]), func=f, node=r.ast)
     bad = []
-    neg = ({k: -v for k, v in want[0].items()}, '>')
+    negs = [({k: -v for k, v in w[0].items()}, '>') for w in wants]
     for l in path_conditions(R, g, rd, g.entry, g.exit):
         lins = _lits_lin(l, alias)
-        if (to, False) not in l and ('%s is None' % sent, True) not in l and neg not in lins:
+        if (to, False) not in l and not ({('%s is None' % sent, True), ('%s is None' % SA, True)} & l) \
+                and not any(ng in lins for ng in negs):
             bad.append(sorted(l))
     R.ob(RID, 'close timeout withheld only when disabled / no close sent / not yet due', not bad,
          '_check_close_timeout returns without raising under %s (a close sent at session time 0.0 must still count as '
@@ -420,6 +424,8 @@ def units(R):
         a = c.args[argi] if len(c.args) > argi else None
         ok = False
         if a is not None:
+            from .common import oexpr
+            a = oexpr(R, gg, cs[0][0], a)
             if factor == 1:
                 ok = U(a) == 'timeout'
             else:
